@@ -30,13 +30,13 @@ theorem main_stops (c : Bool) (t : Thread) (p : Prog) (hh : t.halt = true) (hr :
 
 /-- the hypothesis of `main_stops` holds for every frame stack made of the builtins of the
     repository and of host builtins that pass a context cancelled with the run's -/
-theorem detachedBy_none_of_follows (fs : List (Wrap × Prog))
+theorem detachedBy_none_of_follows (fs : List Frame)
     (h : ∀ f ∈ fs, ∀ e, f.1 ≠ .host .detached e) : detachedBy fs = none := by
   induction fs with
   | nil => rfl
   | cons f fs ih =>
-    obtain ⟨w, k⟩ := f
-    have hw := h (w, k) (by simp)
+    obtain ⟨w, k, ds⟩ := f
+    have hw := h (w, k, ds) (by simp)
     have := ih (fun f hf => h f (by simp [hf]))
     cases w with
     | host cc e =>
@@ -69,21 +69,31 @@ theorem haltedT_is_poll_stop (t : Thread) :
     caller's own context, a child, `WithValue`, `WithoutCancel`, background + values, nested
     in any order), the instruction does not execute, nothing is spawned, the flag stays
     raised (it is never lowered), and the frame is left: by the context's error, by the pop
-    panic, or by returning to the enclosing builtin — so what is left to do strictly
+    panic, or as if the callback had returned (`leaveT t none`: the deferred calls of the frame,
+    if it holds any, then the enclosing builtin) — so what is left to do strictly
     shrinks.  (By `halt_implies_cancelled` a raised flag in a reachable state was raised by
     the watcher of the run's own context.) -/
 theorem halt_honoured_any_callee_ctx (c : Bool) (t : Thread) (p : Prog) (hh : t.halt = true)
     (hr : t.st = .run p) (hp : p ≠ .done ∨ t.frames ≠ []) :
     (stepT c t).1.halt = true ∧ (stepT c t).2 = none ∧
     ((stepT c t).1.st = .raising .ctx ∨ (stepT c t).1.st = .raising .panic ∨
-      ∃ w k fs, t.frames = (w, k) :: fs ∧ (stepT c t).1.st = .run k ∧ (stepT c t).1.frames = fs) ∧
+      (t.frames ≠ [] ∧ (stepT c t).1 = leaveT t none ∧
+        ∀ w k fs, t.frames = (w, k, []) :: fs → (∀ o, w ≠ .dfr o) →
+          (stepT c t).1.st = .run k ∧ (stepT c t).1.frames = fs)) ∧
     potT (stepT c t).1 < potT t := by
   rw [stepT_halted c t p hh hr hp]
   refine ⟨by rw [(haltedT_flags t).1]; exact hh, rfl, ?_, ?_⟩
-  · rcases haltedT_cases t with e | e | ⟨w, k, fs, hf, e⟩
+  · rcases haltedT_cases t with e | e | ⟨hf, e⟩
     · exact Or.inl (by rw [e])
     · exact Or.inr (Or.inl (by rw [e]))
-    · exact Or.inr (Or.inr ⟨w, k, fs, hf, by rw [e], by rw [e]⟩)
+    · refine Or.inr (Or.inr ⟨hf, e, fun w k fs hfr hw => ?_⟩)
+      show (haltedT t).st = .run k ∧ (haltedT t).frames = fs
+      rw [e]
+      unfold leaveT
+      rw [hfr]
+      cases w with
+      | dfr o => exact absurd rfl (hw o)
+      | _ => exact ⟨rfl, rfl⟩
   · have h1 := haltedT_pot t
     have h2 := size_pos p
     have h3 : potT t = size p + potFrames t.frames := by unfold potT; rw [hr]; rfl
@@ -203,6 +213,135 @@ theorem finished_stays_finished (cfg : Cfg) (s : Sys) (σ : List Label) (i : Nat
     (hf : t.st.isFin = true) : (exec cfg s σ).threads[i]? = some t := by
   rw [exec_local cfg i σ s t hc ht ha, iter_fix _ _ (fin_fix true t hf)]
 
+/-- a thread in a compute loop on a VM whose `halt` is never set runs for ever -/
+theorem unhalted_loop_never_ends (t : Thread) (hs : t.st = .run .spin) (hh : t.halt = false)
+    (n : Nat) : (iter n t).st.isFin = false := by
+  rw [iter_fix n t (spin_fix true t hs hh), hs]; rfl
+
+/-! ### 1c. Deferred script closures run under the flag
+
+`callFunction` runs the deferred calls of a frame when the frame is left — also when it is left
+because the halt test stopped it.  A deferred script closure is one more `callFunction` /
+`eval` on the same VM: its first instruction polls the flag like any other.  Everything below
+is for ALL frame stacks (any nesting of builtin callbacks, script calls and deferred calls
+beneath), ALL numbers and shapes of deferred closures in every frame, and every pending
+outcome of the frame that is being left. -/
+
+/-- whenever a frame that holds deferred closures is left — by an error or the halt test's
+    `ctx.Err()` (`.raising e`), by its return instruction (flag down), or by the loop over the
+    deferred calls of the frame above it having ended (`.leaving`) — the most recently deferred
+    closure `d` starts as a frame of its own (`.dfr o` remembers the outcome so far); nothing
+    else changes: the flag, the watcher, the frames beneath, the other deferred closures -/
+theorem deferred_call_starts (c : Bool) (t : Thread) (w : Wrap) (k d : Prog) (ds : List Prog)
+    (fs : List Frame) (hf : t.frames = (w, k, d :: ds) :: fs) (o : Option Err)
+    (hst : (o = none ∧ (t.st = .leaving ∨ (t.st = .run .done ∧ t.halt = false))) ∨
+      ∃ e, o = some e ∧ t.st = .raising e) :
+    stepT c t = ({ t with st := .run d, frames := (.dfr o, .done, []) :: (w, k, ds) :: fs }, none) := by
+  have hl : leaveT t o = { t with st := .run d, frames := (.dfr o, .done, []) :: (w, k, ds) :: fs } := by
+    unfold leaveT; rw [hf]
+  obtain ⟨id, halt, armed, st, frames⟩ := t
+  simp only at hf hst
+  subst hf
+  rcases hst with ⟨rfl, rfl | ⟨rfl, rfl⟩⟩ | ⟨e, rfl, rfl⟩
+  · simp [stepT, hl]
+  · simp [stepT, hl]
+  · simp [stepT, hl]
+
+/-- `halt_stops_deferred_calls`: with the flag raised, a deferred closure is stopped by its
+    FIRST poll like any other code.  Take any thread `t` whose VM has `halt = 1` and whose top
+    frame — being left with any outcome `o` — holds deferred closures `d :: ds` (any shapes,
+    unbounded loops included; any frames `fs` beneath, each with deferred closures of its own).
+    The deferred call `d` starts (`t1`); its first step IS the halted branch of the poll: no
+    instruction of `d` executes, nothing is spawned, the flag stays raised; when the context
+    `callFunction` was handed fires with the run's, the deferred call fails with the
+    context's error and the frame stack is as it was (the loop over `ds` goes on); the
+    potential decreases strictly, and the whole thread — all remaining deferred closures of
+    all frames included — has ended after at most `potT t1 ≤ potFrames t.frames` own steps. -/
+theorem halt_stops_deferred_calls (c : Bool) (t : Thread) (o : Option Err) (w : Wrap) (k d : Prog)
+    (ds : List Prog) (fs : List Frame) (hh : t.halt = true) (hf : t.frames = (w, k, d :: ds) :: fs) :
+    (leaveT t o).st = .run d ∧ (leaveT t o).frames = (.dfr o, .done, []) :: (w, k, ds) :: fs ∧
+    (leaveT t o).halt = true ∧
+    stepT c (leaveT t o) = (haltedT (leaveT t o), none) ∧ (stepT c (leaveT t o)).1.halt = true ∧
+    (detachedBy t.frames = none →
+      (stepT c (leaveT t o)).1 = { leaveT t o with st := .raising .ctx }) ∧
+    potT (stepT c (leaveT t o)).1 < potT (leaveT t o) ∧ potT (leaveT t o) ≤ potFrames t.frames ∧
+    ∀ n, potT (leaveT t o) ≤ n → (iter n (leaveT t o)).st.isFin = true := by
+  have hl : leaveT t o = { t with st := .run d, frames := (.dfr o, .done, []) :: (w, k, ds) :: fs } := by
+    unfold leaveT; rw [hf]
+  have hh1 : (leaveT t o).halt = true := by rw [(leaveT_flags t o).1]; exact hh
+  have hst : (leaveT t o).st = .run d := by rw [hl]
+  have hfr : (leaveT t o).frames = (.dfr o, .done, []) :: (w, k, ds) :: fs := by rw [hl]
+  have hstep := stepT_halted c (leaveT t o) d hh1 hst (Or.inr (by rw [hfr]; simp))
+  refine ⟨hst, hfr, hh1, hstep, ?_, ?_, ?_, leaveT_pot t o, ?_⟩
+  · rw [stepT_halt]; exact hh1
+  · intro hd
+    rw [hstep]
+    apply haltedT_of_none
+    rw [hfr]
+    simp only [detachedBy]
+    rw [detachedBy_defers w k k ds (d :: ds) fs, ← hf]; exact hd
+  · exact (halt_honoured_any_callee_ctx c (leaveT t o) d hh1 hst (Or.inr (by rw [hfr]; simp))).2.2.2
+  · intro n hn; exact halted_thread_finishes (leaveT t o) hh1 n hn
+
+/-- …and that is so for every deferred closure of every frame, whenever it starts: on a VM
+    whose flag is raised NO step of the thread executes an instruction, ever — after any
+    number `n` of its own steps the flag is still raised and a step from running code (the
+    body of a callback, of a script call, of a deferred closure, the main code) is the halted
+    branch of the poll -/
+theorem halted_steps_execute_nothing (t : Thread) (hh : t.halt = true) (n : Nat) :
+    (iter n t).halt = true ∧
+    ∀ c p, (iter n t).st = .run p → (p ≠ .done ∨ (iter n t).frames ≠ []) →
+      stepT c (iter n t) = (haltedT (iter n t), none) := by
+  have h : (iter n t).halt = true := by rw [iter_halt]; exact hh
+  exact ⟨h, fun c p hr hp => stepT_halted c _ p h hr hp⟩
+
+/-- an error is never lost in the loop over the deferred calls: the frame's outcome after a
+    deferred call is that call's error if it failed, the outcome so far if it did not (a Go
+    panic keeps unwinding whatever the deferred calls do) -/
+theorem deferred_outcome_never_lost (pending o : Option Err) :
+    (o = none → deferredOutcome pending o = pending) ∧
+    (∀ e, o = some e → pending ≠ some .panic → deferredOutcome pending o = some e) ∧
+    ((pending.isSome || o.isSome) = true → (deferredOutcome pending o).isSome = true) := by
+  refine ⟨?_, ?_, ?_⟩
+  · intro h; subst h
+    cases pending with
+    | none => rfl
+    | some e => cases e <;> rfl
+  · intro e h hp; subst h
+    cases pending with
+    | none => rfl
+    | some e' => cases e' <;> simp_all [deferredOutcome]
+  · cases pending with
+    | none => cases o <;> simp [deferredOutcome]
+    | some e' => cases e' <;> cases o <;> simp [deferredOutcome]
+
+/-- `deferLowering_not_stopped`: the property does NOT hold for a `callFunction` that lowers
+    the flag while the deferred calls of a frame run (`leaveLowering`; it would raise the
+    flag again afterwards, but there is no afterwards).  For EVERY thread, whatever frames lie
+    beneath, whatever else the frame holds and whatever its outcome: when the next deferred
+    closure of the frame being left is an unbounded loop (a polling wait, a retry loop), the
+    thread never ends under the variant — no own step changes it; the watcher goroutine is
+    one-shot and has already stored its 1, nothing raises the flag again — whereas under the
+    code as it is, with the flag raised, it has ended within `potT` own steps. -/
+theorem deferLowering_not_stopped (t : Thread) (o : Option Err) (w : Wrap) (k : Prog)
+    (ds : List Prog) (fs : List Frame) (hf : t.frames = (w, k, .spin :: ds) :: fs) :
+    (∀ n, (iter n (leaveLowering t o)).st.isFin = false) ∧
+    (∀ n, iter n (leaveLowering t o) = leaveLowering t o) ∧
+    (t.halt = true → (iter (potT (leaveT t o)) (leaveT t o)).st.isFin = true) := by
+  have hst : (leaveLowering t o).st = .run .spin := by
+    unfold leaveLowering leaveT; rw [hf]
+  have hh : (leaveLowering t o).halt = false := rfl
+  refine ⟨fun n => unhalted_loop_never_ends _ hst hh n,
+    fun n => iter_fix n _ (spin_fix true _ hst hh), fun h => ?_⟩
+  exact (halt_stops_deferred_calls true t o w k .spin ds fs h hf).2.2.2.2.2.2.2.2 _ (Nat.le_refl _)
+
+/-- the two differ exactly in the flag: the variant starts the same deferred call on the same
+    frames; the code as it is never lowers the flag when it leaves a frame -/
+theorem leaveLowering_differs_only_in_flag (t : Thread) (o : Option Err) :
+    (leaveLowering t o).st = (leaveT t o).st ∧ (leaveLowering t o).frames = (leaveT t o).frames ∧
+    (leaveLowering t o).halt = false ∧ (leaveT t o).halt = t.halt :=
+  ⟨rfl, rfl, rfl, (leaveT_flags t o).1⟩
+
 /-! ### 3. The verdict the oracle reports is exact -/
 
 /-- `stops` (what the oracle answers per thread: run `potT` own steps after the watcher, if
@@ -215,11 +354,6 @@ theorem stops_iff (t : Thread) : (∃ n, (iter n (fireT t)).st.isFin = true) ↔
     show (iter (potT t) (fireT t)).st.isFin = true
     rw [← hp]; exact fin_within_pot n _ h
   · intro h; exact ⟨_, h⟩
-
-/-- a thread in a compute loop on a VM whose `halt` is never set runs for ever -/
-theorem unhalted_loop_never_ends (t : Thread) (hs : t.st = .run .spin) (hh : t.halt = false)
-    (n : Nat) : (iter n t).st.isFin = false := by
-  rw [iter_fix n t (spin_fix true t hs hh), hs]; rfl
 
 /-! ### 4. The full statement, its counterexample, the guard, the partial theorem -/
 
@@ -269,7 +403,7 @@ theorem loopfree_thread_finishes (t : Thread) (h : noSpinT t = true) (n : Nat) (
       obtain ⟨id, halt, armed, st, frames⟩ := t
       simp only at hs
       rw [hs.1] at h
-      simp [noSpinT, noSpin, allK] at h) n t h hn
+      simp [noSpinT, invP, stP, noSpin, allK] at h) n t h hn
 
 /-- `C06_partial`: for every program in which no spawned function (at any nesting depth)
     contains an unbounded compute loop — guard `noCloneSpin`, decidable, exactly the shapes
@@ -298,12 +432,12 @@ theorem C06_partial (p : Prog) (hg : noCloneSpin p = true) (σ : List Label)
         rcases h with ⟨_, h⟩ | h
         · exact (noCloneSpinT_step c t h).2 b hb
         · exact (noSpinT_step c t h).2 b hb
-      exact Or.inr (by simp [newClone, noSpinT, allK, hb']))
+      exact Or.inr (by simp [newClone, noSpinT, invP, stP, allK, hb']))
     σ (init p) (by
       intro t ht
       simp [init] at ht
       subst ht
-      exact Or.inl ⟨rfl, by simp [noCloneSpinT, allK, hg]⟩)
+      exact Or.inl ⟨rfl, by simp [noCloneSpinT, invP, stP, allK, hg]⟩)
   intro t ht
   rcases inv t ht with ⟨ha, _⟩ | h
   · refine ⟨potT (fireT t), halted_thread_finishes _ ?_ _ (Nat.le_refl _)⟩
@@ -348,6 +482,7 @@ def ctxOnly (t : Thread) : Bool :=
     | .run p => t.halt && p != .done
     | .blocked pr _ => primEffect pr == some .ctx
     | .raising e => e == .ctx
+    | .leaving => false
     | .fin e => e == some .ctx)
 
 /-- `C06_partial_error_identity`: a thread outside every builtin callback that is stopped
@@ -364,7 +499,8 @@ theorem C06_partial_error_identity (t : Thread) (h : ctxOnly t = true) (n : Nat)
     | nil =>
       cases st with
       | fin e => simpa [stepT] using h
-      | raising e => simp [ctxOnly] at h; simp [stepT, ctxOnly, h]
+      | raising e => simp [ctxOnly] at h; simp [stepT, leaveT, ctxOnly, h]
+      | leaving => simp [ctxOnly] at h
       | blocked pr k => simp [ctxOnly] at h; simp [stepT, h, ctxOnly]
       | run p =>
         simp [ctxOnly] at h
@@ -418,6 +554,7 @@ theorem C06_partial_error_program (p : Prog) (hg : noLossy p = true) (σ : List 
     cases st with
     | fin e => simp [St.isFin] at hnf
     | raising e => simpa [ctxPath, ctxOnly] using hc
+    | leaving => simp [ctxPath] at hc
     | blocked pr k => simp [ctxPath] at hc; simp [ctxOnly, hc]
     | run q => simp [ctxOnly]; intro h; exact hnd (by rw [h])
 
@@ -432,14 +569,14 @@ def C06_full_error : Prop :=
     only carries the text (and `thread.wait` wraps it the same way). -/
 theorem C06_counterexample_callback_error : ¬ C06_full_error := by
   intro h
-  obtain ⟨n, hn⟩ := h { id := 0, halt := true, armed := true, st := .run .spin, frames := [(.each, .done)] }
+  obtain ⟨n, hn⟩ := h { id := 0, halt := true, armed := true, st := .run .spin, frames := [(.each, .done, [])] }
     rfl rfl (Or.inl (by simp))
-  have h3 : iter 3 { id := 0, halt := true, armed := true, st := .run .spin, frames := [(.each, .done)] }
+  have h3 : iter 3 { id := 0, halt := true, armed := true, st := .run .spin, frames := [(.each, .done, [])] }
       = { id := 0, halt := true, armed := true, st := .fin (some .msg), frames := [] } := by decide
-  have hfin : (iter (3 + n) { id := 0, halt := true, armed := true, st := .run .spin, frames := [(Wrap.each, Prog.done)] }).st
+  have hfin : (iter (3 + n) { id := 0, halt := true, armed := true, st := .run .spin, frames := [(Wrap.each, Prog.done, [])] }).st
       = .fin (some .msg) := by
     rw [iter_add, h3, iter_fix n _ (fin_fix true _ rfl)]
-  have hfin' : (iter (n + 3) { id := 0, halt := true, armed := true, st := .run .spin, frames := [(Wrap.each, Prog.done)] }).st
+  have hfin' : (iter (n + 3) { id := 0, halt := true, armed := true, st := .run .spin, frames := [(Wrap.each, Prog.done, [])] }).st
       = .fin (some .ctx) := by
     rw [iter_add]
     generalize iter n _ = u at hn
@@ -452,28 +589,33 @@ theorem C06_counterexample_callback_error : ¬ C06_full_error := by
     left to poll, the call returns a nil error. -/
 theorem C06_counterexample_try_swallows :
     ∃ t : Thread, t.halt = true ∧ t.st = .run .spin ∧ ∀ n, 3 ≤ n → (iter n t).st = .fin none := by
-  refine ⟨{ id := 0, halt := true, armed := true, st := .run .spin, frames := [(.try_, .done)] }, rfl, rfl, ?_⟩
+  refine ⟨{ id := 0, halt := true, armed := true, st := .run .spin, frames := [(.try_, .done, [])] }, rfl, rfl, ?_⟩
   intro n hn
   obtain ⟨d, rfl⟩ := Nat.exists_eq_add_of_le hn
-  have h3 : iter 3 { id := 0, halt := true, armed := true, st := .run .spin, frames := [(.try_, .done)] }
+  have h3 : iter 3 { id := 0, halt := true, armed := true, st := .run .spin, frames := [(.try_, .done, [])] }
       = { id := 0, halt := true, armed := true, st := .fin none, frames := [] } := by decide
   rw [iter_add, h3, iter_fix d _ (fin_fix true _ rfl)]
 
-/-- frames that cannot swallow, state that cannot fall off the end silently -/
+/-- frames that cannot swallow, state that cannot fall off the end silently (frames without
+    deferred closures: the state space the statement was made for; with deferred closures see
+    `halt_stops_deferred_calls`, `deferred_outcome_never_lost` and, for a raised flag,
+    `C06_partial_error_nonnil_deferred`) -/
 def raises (t : Thread) : Bool :=
-noTry t.frames && (detachedBy t.frames).isNone && (match t.st with
+noTry t.frames && (detachedBy t.frames).isNone && noDefersF t.frames && (match t.st with
     | .run p => t.halt && (p != .done || !t.frames.isEmpty)
     | .blocked pr _ => (primEffect pr).isSome
     | .raising _ => true
+    | .leaving => false
     | .fin e => e.isSome)
 
 /-- `raises` without its clause about the callee context: what `C06_partial_error_nonnil`
     would have to hold for if the returned error did not depend on the consulted context -/
 def raisesButDetached (t : Thread) : Bool :=
-  noTry t.frames && (match t.st with
+  noTry t.frames && noDefersF t.frames && (match t.st with
     | .run p => t.halt && (p != .done || !t.frames.isEmpty)
     | .blocked pr _ => (primEffect pr).isSome
     | .raising _ => true
+    | .leaving => false
     | .fin e => e.isSome)
 
 /-- `C06_partial_error_nonnil`: outside `try`, a thread stopped by the poll or blocked in
@@ -488,16 +630,21 @@ theorem C06_partial_error_nonnil (t : Thread) (h : raises t = true) (n : Nat) (h
     | fin e => simpa [stepT] using h
     | raising e =>
       cases frames with
-      | nil => simp [stepT, raises, noTry, detachedBy]
+      | nil => simp [stepT, leaveT, raises, noTry, detachedBy, noDefersF]
       | cons f fs =>
-        obtain ⟨w, k⟩ := f
-        cases w with
-        | host cc b => cases cc <;> cases e <;> simp_all [stepT, wrapErr, raises, noTry, detachedBy]
-        | _ => cases e <;> simp_all [stepT, wrapErr, raises, noTry, detachedBy]
+        obtain ⟨w, k, ds⟩ := f
+        cases ds with
+        | cons d ds => simp [raises, noDefersF] at h
+        | nil =>
+          cases w with
+          | host cc b => cases cc <;> cases e <;> simp_all [stepT, leaveT, returnT, wrapErr, raises, noTry, detachedBy, noDefersF]
+          | dfr o => simp [raises, noDefersF] at h
+          | _ => cases e <;> simp_all [stepT, leaveT, returnT, wrapErr, raises, noTry, detachedBy, noDefersF]
+    | leaving => simp [raises] at h
     | blocked pr k =>
       cases hp : primEffect pr <;> simp_all [stepT, raises]
     | run p =>
-      cases p <;> cases frames <;> cases halt <;> simp_all [stepT, raises, noTry, haltedT, detachedBy]
+      cases p <;> cases frames <;> cases halt <;> simp_all [stepT, raises, noTry, haltedT, detachedBy, noDefersF]
   have hfin := finishes_of_invariant (fun t => raises t = true) keep
     (fun t h hs => by
       obtain ⟨id, halt, armed, st, frames⟩ := t
@@ -519,6 +666,103 @@ theorem C06_partial_error_nonnil (t : Thread) (h : raises t = true) (n : Nat) (h
   | none => simp [raises] at hc
   | some e => exact ⟨e, rfl⟩
 
+/-- a HALTED thread outside `try` and outside detached callee contexts, whatever deferred
+    closures its frames hold -/
+def raisesHalted (t : Thread) : Bool :=
+  noTry t.frames && (detachedBy t.frames).isNone && t.halt && (match t.st with
+    | .run p => p != .done || !t.frames.isEmpty
+    | .blocked pr _ => (primEffect pr).isSome
+    | .raising _ => true
+    | .leaving => false
+    | .fin e => e.isSome)
+
+theorem noTry_tail (f : Frame) (fs : List Frame) (h : noTry (f :: fs) = true) : noTry fs = true := by
+  obtain ⟨w, k, ds⟩ := f
+  simp [noTry] at h; exact h.2
+
+theorem leaveT_raisesHalted (t : Thread) (e : Err) (hh : t.halt = true) (ht : noTry t.frames = true)
+    (hd : detachedBy t.frames = none) : raisesHalted (leaveT t (some e)) = true := by
+  obtain ⟨id, halt, armed, st, frames⟩ := t
+  simp only at hh ht hd
+  subst hh
+  cases frames with
+  | nil => simp [leaveT, raisesHalted, noTry, detachedBy]
+  | cons f fs =>
+    obtain ⟨w, k, ds⟩ := f
+    have ht' := noTry_tail _ _ ht
+    have hd' := detachedBy_tail _ _ hd
+    cases ds with
+    | cons d ds =>
+      have h1 : detachedBy ((w, k, ds) :: fs) = none := by
+        rw [detachedBy_defers w k k ds (d :: ds) fs]; exact hd
+      have h2 : noTry ((w, k, ds) :: fs) = true := by simpa [noTry] using ht
+      simp [noTry] at h2
+      simp [leaveT, raisesHalted, noTry, detachedBy, h1, h2]
+    | nil =>
+      cases w with
+      | dfr o =>
+        cases o with
+        | none => simp [leaveT, returnT, deferredOutcome, raisesHalted, ht', hd']
+        | some e' => cases e' <;> simp [leaveT, returnT, deferredOutcome, raisesHalted, ht', hd']
+      | try_ => simp [noTry] at ht
+      | host cc b => cases e <;> simp [leaveT, returnT, wrapErr, raisesHalted, ht', hd']
+      | _ => cases e <;> simp [leaveT, returnT, wrapErr, raisesHalted, ht', hd']
+
+/-- `C06_partial_error_nonnil_deferred`: on a VM whose flag is raised, outside `try` and
+    outside detached callee contexts, a thread ends with AN error whatever deferred closures its
+    frames hold (any number, any shapes, `try` and loops inside them included — none of their
+    instructions executes): the loop over the deferred calls never turns the cancellation into
+    a silent normal result. -/
+theorem C06_partial_error_nonnil_deferred (t : Thread) (h : raisesHalted t = true) (n : Nat)
+    (hn : potT t ≤ n) : ∃ e, (iter n t).st = .fin (some e) := by
+  have keep : ∀ t, raisesHalted t = true → raisesHalted (stepT true t).1 = true := by
+    intro t h
+    have h0 := h
+    simp only [raisesHalted, Bool.and_eq_true, Option.isNone_iff_eq_none] at h
+    obtain ⟨⟨⟨ht, hd⟩, hh⟩, hs⟩ := h
+    have hl := fun e => leaveT_raisesHalted t e hh ht hd
+    cases hst : t.st with
+    | fin e => rw [fin_fix true t (by rw [hst]; rfl)]; exact h0
+    | raising e =>
+      have : (stepT true t).1 = leaveT t (some e) := by
+        obtain ⟨id, halt, armed, st, frames⟩ := t
+        simp only at hst; subst hst; simp [stepT]
+      rw [this]; exact hl e
+    | leaving => rw [hst] at hs; simp at hs
+    | blocked pr k =>
+      rw [hst] at hs
+      obtain ⟨id, halt, armed, st, frames⟩ := t
+      simp only at hst hh ht hd; subst hst hh
+      cases hp : primEffect pr with
+      | none => simp [hp] at hs
+      | some e => simp [stepT, hp, raisesHalted, ht, hd]
+    | run p =>
+      rw [hst] at hs
+      have hp : p ≠ .done ∨ t.frames ≠ [] := by
+        simp at hs
+        rcases hs with h1 | h1
+        · exact Or.inl h1
+        · exact Or.inr h1
+      rw [stepT_halted true t p hh hst hp, haltedT_of_none t hd]
+      simp [raisesHalted, ht, hd, hh]
+  have hfin := finishes_of_invariant (fun t => raisesHalted t = true) keep
+    (fun t h hs => by
+      simp only [raisesHalted, Bool.and_eq_true] at h
+      rw [hs.2] at h; simp at h) n t h hn
+  have hinv : ∀ n t, raisesHalted t = true → raisesHalted (iter n t) = true := by
+    intro n
+    induction n with
+    | zero => intro t h; exact h
+    | succ n ih => intro t h; rw [iter_succ]; exact ih _ (keep t h)
+  have hc := hinv n t h
+  generalize iter n t = u at hfin hc
+  obtain ⟨id, halt, armed, st, frames⟩ := u
+  cases st <;> simp [St.isFin] at hfin
+  rename_i e
+  cases e with
+  | none => simp [raisesHalted] at hc
+  | some e => exact ⟨e, rfl⟩
+
 /-- `C06_partial_callee_ctx` (the guard the harness attributes the callee-context finding by,
     at program level): for every program whose main code calls no host builtin with a
     detached callee context (`noDetached`: everything made of the builtins of the repository
@@ -537,7 +781,7 @@ theorem C06_partial_callee_ctx (p : Prog) (hg : noDetached p = true) (σ : List 
       rw [noDetT_fire]; apply h
       unfold fireT at ha; split at ha <;> assumption)
     (fun _ _ _ _ _ ha => by simp [newClone, implCfg] at ha)
-    σ (init p) (by intro t ht _; simp [init] at ht; subst ht; simp [noDetT, allK, detachedBy, hg])
+    σ (init p) (by intro t ht _; simp [init] at ht; subst ht; simp [noDetT, invP, stP, allK, detachedBy, hg])
   have hd : detachedBy t.frames = none := by
     have := inv t ht ha
     simp [noDetT] at this
@@ -552,11 +796,11 @@ theorem C06_partial_callee_ctx (p : Prog) (hg : noDetached p = true) (σ : List 
 theorem C06_counterexample_detached_nil :
     ∃ t : Thread, t.halt = true ∧ t.st = .run .spin ∧ raisesButDetached t = true ∧
       ∀ n, 2 ≤ n → (iter n t).st = .fin none := by
-  refine ⟨{ id := 0, halt := true, armed := true, st := .run .spin, frames := [(.host .detached false, .done)] },
+  refine ⟨{ id := 0, halt := true, armed := true, st := .run .spin, frames := [(.host .detached false, .done, [])] },
     rfl, rfl, by decide, ?_⟩
   intro n hn
   obtain ⟨d, rfl⟩ := Nat.exists_eq_add_of_le hn
-  have h2 : iter 2 { id := 0, halt := true, armed := true, st := .run .spin, frames := [(.host .detached false, .done)] }
+  have h2 : iter 2 { id := 0, halt := true, armed := true, st := .run .spin, frames := [(.host .detached false, .done, [])] }
       = { id := 0, halt := true, armed := true, st := .fin none, frames := [] } := by decide
   rw [iter_add, h2, iter_fix d _ (fin_fix true _ rfl)]
 
@@ -568,11 +812,11 @@ theorem C06_counterexample_detached_nil :
 theorem C06_counterexample_detached_panic :
     ∃ t : Thread, t.halt = true ∧ t.st = .run .spin ∧ raisesButDetached t = true ∧
       ∀ n, 3 ≤ n → (iter n t).st = .fin (some .panic) := by
-  refine ⟨{ id := 0, halt := true, armed := true, st := .run .spin, frames := [(.host .detached true, .spin)] },
+  refine ⟨{ id := 0, halt := true, armed := true, st := .run .spin, frames := [(.host .detached true, .spin, [])] },
     rfl, rfl, by decide, ?_⟩
   intro n hn
   obtain ⟨d, rfl⟩ := Nat.exists_eq_add_of_le hn
-  have h3 : iter 3 { id := 0, halt := true, armed := true, st := .run .spin, frames := [(.host .detached true, .spin)] }
+  have h3 : iter 3 { id := 0, halt := true, armed := true, st := .run .spin, frames := [(.host .detached true, .spin, [])] }
       = { id := 0, halt := true, armed := true, st := .fin (some .panic), frames := [] } := by decide
   rw [iter_add, h3, iter_fix d _ (fin_fix true _ rfl)]
 
@@ -664,13 +908,46 @@ example : (exec implCfg (init (.spawn 1 (.block .sleep .done) .spin)) [.step 0, 
 example : ∃ t, (exec implCfg (init (.cb .map (.cb .try_ .spin .done) .done))
       [.step 0, .step 0, .step 0, .cancel, .fire 0]).threads[0]? = some t ∧ t.halt = true
       ∧ (iter (potT t) t).st = .fin (some .msg) :=
-  ⟨{ id := 0, halt := true, armed := true, st := .run .spin, frames := [(.try_, .done), (.map, .done)] },
+  ⟨{ id := 0, halt := true, armed := true, st := .run .spin, frames := [(.try_, .done, []), (.map, .done, [])] },
     by decide, by decide, by decide⟩
+
+/-- `halt_stops_deferred_calls` is not vacuous: `func(){ defer func(){ for {} }(); for {} }()`
+    — a script call registers a deferred unbounded loop and loops; cancel, the watcher fires: a
+    reachable state with the flag raised and a deferred loop pending; the evaluation ends with
+    the context's error within `potT` own steps (under the lowering variant it never would:
+    `deferLowering_not_stopped`) -/
+example : ∃ t, (exec implCfg (init (.cb .fn (.defer_ .spin .spin) .done))
+      [.step 0, .step 0, .cancel, .fire 0]).threads[0]? = some t ∧ t.halt = true
+      ∧ t.frames = [(.fn, .done, [.spin])] ∧ (iter (potT t) t).st = .fin (some .ctx)
+      ∧ (iter 2 t).st = .run .spin ∧ (iter 2 t).frames = [(.dfr (some .ctx), .done, []), (.fn, .done, [])] :=
+  ⟨{ id := 0, halt := true, armed := true, st := .run .spin, frames := [(.fn, .done, [.spin])] },
+    by decide, by decide, by decide, by decide, by decide, by decide⟩
+
+/-- …deferred closures in the callback of a builtin and in its caller, three of them, one
+    holding a deferred closure of its own and blocking primitives: all stopped; `each` hands
+    a copy of the error's text to the script call, whose own deferred closure is stopped by the
+    poll in turn, and THAT error — the context's — replaces the outcome of the call -/
+example : (iter 40 { id := 0, halt := true, armed := true, st := .run .spin,
+                     frames := [(.each, .done, [.spin, .defer_ .spin (.block .recv .spin)]), (.fn, (.compute .done), [.cb .try_ .spin .spin])] }).st
+    = .fin (some .ctx) := by decide
+
+/-- …and a frame that returned normally while the flag was down runs its deferred closure; the
+    cancellation that arrives while THAT loops stops it, the error replaces the result -/
+example : ∃ t, (exec implCfg (init (.cb .fn (.defer_ .spin .done) .spin))
+      [.step 0, .step 0, .step 0, .cancel, .fire 0]).threads[0]? = some t ∧ t.halt = true
+      ∧ t.frames = [(.dfr none, .done, []), (.fn, .spin, [])] ∧ (iter (potT t) t).st = .fin (some .ctx) :=
+  ⟨{ id := 0, halt := true, armed := true, st := .run .spin, frames := [(.dfr none, .done, []), (.fn, .spin, [])] },
+    by decide, by decide, by decide, by decide⟩
+
+/-- `raisesHalted` admits frames that hold deferred closures with `try` and loops in them -/
+example : raisesHalted { id := 0, halt := true, armed := true, st := .run .spin,
+                         frames := [(.sorted, .done, [.cb .try_ .spin .spin, .spin]), (.fn, .spin, [.spin])] } = true := by
+  decide
 
 /-- `ctxOnly` and `raises` are satisfiable by the shapes the tests use and by blocked ones -/
 example : ctxOnly { id := 0, halt := true, armed := true, st := .run .spin, frames := [] } = true
     ∧ ctxOnly { id := 0, halt := false, armed := true, st := .blocked .recv .done, frames := [] } = true
-    ∧ raises { id := 0, halt := false, armed := true, st := .blocked .wait .done, frames := [(.sorted, .done)] } = true := by
+    ∧ raises { id := 0, halt := false, armed := true, st := .blocked .wait .done, frames := [(.sorted, .done, [])] } = true := by
   decide
 
 /-- `halt_honoured_any_callee_ctx` is not vacuous: a halted thread inside a host callback
@@ -681,12 +958,12 @@ example : ∃ t, (exec implCfg (init (.cb (.host .follows false) (.cb .each (.cb
       [.step 0, .step 0, .step 0, .step 0, .cancel, .fire 0]).threads[0]? = some t ∧ t.halt = true
       ∧ detachedBy t.frames = some false ∧ (iter (potT t) t).st = .fin (some .msg) :=
   ⟨{ id := 0, halt := true, armed := true, st := .run .spin,
-     frames := [(.host .detached false, .done), (.each, .done), (.host .follows false, .spin)] },
+     frames := [(.host .detached false, .done, []), (.each, .done, []), (.host .follows false, .spin, [])] },
     by decide, by decide, by decide, by decide⟩
 
 /-- …and after a detached callback that "returned" under the raised flag, the next poll of the
     main code (run's own context) returns the context's error itself -/
-example : (iter 3 (Thread.mk 0 true true (.run .spin) [(.host .detached false, .spin)])).st
+example : (iter 3 (Thread.mk 0 true true (.run .spin) [(.host .detached false, .spin, [])])).st
     = .fin (some .ctx) := by decide
 
 /-- the guard of `C06_partial_callee_ctx` admits host callbacks with every context that is
